@@ -327,14 +327,59 @@ fn gen_stream(rng: &mut Rng) -> (StreamSpec, String) {
     )
 }
 
+fn gen_long_stream(rng: &mut Rng) -> (StreamSpec, String) {
+    let (base, desc) = gen_stream(rng);
+    let mut unit = base.data.clone();
+    if unit.last() != Some(&b'\n') {
+        unit.push(b'\n');
+    }
+    // no giant lines in the unit: the point here is the number of lines
+    let unit: Vec<u8> = unit.split(|&b| b == b'\n').filter(|l| l.len() <= 2000).flat_map(|l| l.iter().copied().chain(std::iter::once(b'\n'))).collect();
+    let per = unit.iter().filter(|&&b| b == b'\n').count().max(1);
+    let target = rng.range(20_000, 70_000);
+    let mut data: Vec<u8> = Vec::with_capacity(unit.len() * (target / per + 1));
+    let mut lines = 0;
+    while lines < target && data.len() < 12_000_000 {
+        data.extend_from_slice(&unit);
+        lines += per;
+    }
+    if rng.ratio(1, 3) {
+        data.pop(); // no final newline
+    }
+    // I/O schedule: whole stream, pipe-sized reads, or small irregular reads with some EINTR
+    let mode = rng.below(3);
+    let mut steps: Vec<usize> = Vec::new();
+    let mut covered = 0usize;
+    while covered < data.len() && steps.len() < 60_000 && mode != 0 {
+        if mode == 2 && rng.ratio(1, 50) {
+            steps.push(0);
+            continue;
+        }
+        let n = if mode == 1 { *rng.pick(&[4096usize, 8192, 65536]) } else { rng.range(1, 3000) };
+        steps.push(n);
+        covered += n;
+    }
+    let mut faults = base.faults.clone();
+    faults.push(Fault::ShortRead);
+    (
+        StreamSpec { data, steps, faults },
+        format!("shape=many-lines lines={} io_mode={} | {}", lines, mode, desc),
+    )
+}
+
 impl Prop for C20 {
     fn id(&self) -> &'static str {
         "C20"
     }
 
     fn generate(&self, seed: u64, run: u64) -> Scenario {
+        // many-lines shape (one run in 5 000): 20 000 - 70 000 lines through one invocation of
+        // the tool, for anything that grows, counts or recurses per line. Decided by a hash of
+        // the seed that is independent of the run's own PRNG stream (other runs stay as they were).
+        let mut h = seed ^ 0xc20_1095_c20_1095;
+        let pick = crate::rng::splitmix64(&mut h);
         let mut rng = Rng::new(seed);
-        let (stream, desc) = gen_stream(&mut rng);
+        let (stream, desc) = if pick % 5000 == 3 { gen_long_stream(&mut rng) } else { gen_stream(&mut rng) };
         Scenario {
             prop: "C20".into(),
             seed,
@@ -407,6 +452,7 @@ impl Prop for C20 {
             st.probe_if(r.stats.chunk_ends_at_newline > 0, "read boundary exactly after a newline");
             st.probe_if(r.stats.chunk_splits_crlf > 0, "read boundary between CR and LF");
             st.probe_if(s.data.is_empty(), "empty stream");
+            st.probe_if(lines.len() > 20_000, "more than 20 000 lines in one invocation");
             st.probe_if(r.consumed == r.total, "input consumed to the end");
         }
         judge_run(&s.data, &r.panicked, true, &r.stdout, &r.stderr, 0, "in-process")
